@@ -86,152 +86,7 @@ func runC13(r *Run) {
 		want := []string{"Create", "Recover", "Update"}
 		r.R.Check(fmt.Sprint(writerSeq) == fmt.Sprint(want), P+".layout.writer.chunk", "E12: chunk deltas are appended in the order create, recover, update", core.FuncName(f), r.where(f), why, fmt.Sprint(writerSeq), fmt.Sprintf("writer order %v, expected %v", writerSeq, want))
 	}
-	// --- layout: reader order
-	if f := r.fn(P, pkgProvider, "OperationProvider.assembleAnchoredOperations"); f != nil {
-		ff := r.E.Facts(f, core.Ctx{})
-		calls := r.callsIn(f, "createAnchoredOperations")
-		var full []string
-		var fullCalls []*ssa.Call
-		for _, c := range calls {
-			ops, cs := appendChain(c.Common().Args[0])
-			if len(ops) > len(full) {
-				full = nil
-				for _, o := range ops {
-					full = append(full, groupOf(ff.TB.Of(o)))
-				}
-				fullCalls = cs
-			}
-		}
-		want := []string{"Create", "Recover", "Update", "Deactivate"}
-		r.R.Check(fmt.Sprint(full) == fmt.Sprint(want), P+".layout.reader.order", "E12: read-back order is create, recover, update, deactivate", core.FuncName(f), r.where(f), why, fmt.Sprint(full), fmt.Sprintf("reader order %v, expected %v", full, want))
-		// positional delta assignment happens on the slice holding exactly the writer's groups
-		okPos := false
-		det := "no positional delta assignment found"
-		for _, b := range f.Blocks {
-			for _, ins := range b.Instrs {
-				st, ok := ins.(*ssa.Store)
-				if !ok {
-					continue
-				}
-				fa, ok := st.Addr.(*ssa.FieldAddr)
-				if !ok || fieldName(fa) != "Delta" {
-					continue
-				}
-				// base: load of IndexAddr(operationsK, i)
-				u, ok := fa.X.(*ssa.UnOp)
-				if !ok {
-					continue
-				}
-				ia, ok := u.X.(*ssa.IndexAddr)
-				if !ok {
-					continue
-				}
-				ops, _ := appendChain(ia.X)
-				var seq []string
-				for _, o := range ops {
-					seq = append(seq, groupOf(ff.TB.Of(o)))
-				}
-				det = fmt.Sprintf("deltas assigned positionally over %v; writer laid out %v", seq, writerSeq)
-				okPos = fmt.Sprint(seq) == fmt.Sprint(writerSeq) && len(seq) > 0
-				// the value assigned is Chunk.Deltas[i] with the same index
-				vt := ff.TB.Of(st.Val)
-				if !strings.Contains(vt.String(), ".Chunk.Deltas") {
-					okPos = false
-					det += "; assigned value is " + vt.String()
-				}
-			}
-		}
-		_ = fullCalls
-		r.R.Check(okPos, P+".layout.reader.deltas", "E12: deltas are assigned by position over exactly the groups, in the order, the writer laid them out", core.FuncName(f), r.where(f), why, det, det)
-		// proof lists feed like-named groups
-		n := 0
-		bad := []string{}
-		for _, b := range f.Blocks {
-			for _, ins := range b.Instrs {
-				st, ok := ins.(*ssa.Store)
-				if !ok {
-					continue
-				}
-				fa, ok := st.Addr.(*ssa.FieldAddr)
-				if !ok || fieldName(fa) != "SignedData" {
-					continue
-				}
-				n++
-				dst := groupOf(ff.TB.Of(fa.X))
-				srcT := ff.TB.Of(st.Val)
-				src := groupOf(srcT)
-				file := ""
-				switch {
-				case strings.Contains(srcT.String(), ".CoreProof."):
-					file = "core"
-				case strings.Contains(srcT.String(), ".ProvisionalProof."):
-					file = "provisional"
-				}
-				wantFile := map[string]string{"Recover": "core", "Deactivate": "core", "Update": "provisional"}[dst]
-				// same index on both sides
-				sameIdx := false
-				if u, ok := fa.X.(*ssa.UnOp); ok {
-					if ia, ok := u.X.(*ssa.IndexAddr); ok {
-						if su, ok := st.Val.(*ssa.UnOp); ok {
-							if sia, ok := su.X.(*ssa.IndexAddr); ok && sia.Index == ia.Index {
-								sameIdx = true
-							}
-						}
-					}
-				}
-				if dst == "" || dst != src || file != wantFile || !sameIdx {
-					bad = append(bad, fmt.Sprintf("%s[i].SignedData <- %s (file %s, same index %v)", dst, short(srcT.String(), 90), file, sameIdx))
-				}
-			}
-		}
-		// every hand-off to createAnchoredOperations of a group that needs signed data
-		// must have passed that group's signed-data loop
-		sdLoop := map[string]*ssa.BasicBlock{}
-		for _, b := range f.Blocks {
-			for _, ins := range b.Instrs {
-				if st, ok := ins.(*ssa.Store); ok {
-					if fa, ok := st.Addr.(*ssa.FieldAddr); ok && fieldName(fa) == "SignedData" {
-						if g := groupOf(ff.TB.Of(fa.X)); g != "" {
-							sdLoop[g] = enclosingLoopHead(f, b)
-						}
-					}
-				}
-			}
-		}
-		for ci, c := range calls {
-			ops, _ := appendChain(c.Common().Args[0])
-			if len(ops) == 0 {
-				ops = []ssa.Value{c.Common().Args[0]}
-			}
-			for _, o := range ops {
-				g := groupOf(ff.TB.Of(o))
-				if g == "" || g == "Create" {
-					continue
-				}
-				h := sdLoop[g]
-				okDom := h != nil && !blockReaches(ff, f.Blocks[0], c.Block(), h)
-				if h != nil && f.Blocks[0] == h {
-					okDom = true
-				}
-				r.R.Check(okDom, fmt.Sprintf("%s.layout.reader.proofs.before.%s.handoff%d", P, g, ci), "E8 never-before: "+g+" operations are handed to createAnchoredOperations only after the loop that attaches their signed data",
-					core.FuncName(f), r.P.Pos(c.Pos()), "an operation read back without its signed data is not the request that was submitted (and can never be applied)",
-					"signed-data loop passed on every path", "a path reaches this hand-off without passing the "+g+" signed-data loop")
-			}
-		}
-		r.R.Check(n == 3 && len(bad) == 0, P+".layout.reader.proofs", "E12: signed data of group G[i] comes from the like-named list of the right proof file at the same index (recover/deactivate: core proof, update: provisional proof)", core.FuncName(f), r.where(f), why, fmt.Sprintf("%d signed-data assignments consistent", n), fmt.Sprintf("%d assignments; inconsistent: %s", n, strings.Join(bad, "; ")))
-		// recover anchor origin from its signed data
-		okAO := false
-		for _, b := range f.Blocks {
-			for _, ins := range b.Instrs {
-				if st, ok := ins.(*ssa.Store); ok {
-					if fa, ok := st.Addr.(*ssa.FieldAddr); ok && fieldName(fa) == "AnchorOrigin" && groupOf(ff.TB.Of(fa.X)) == "Recover" {
-						okAO = core.MatchTerm("ParseSignedDataForRecover(_, _).AnchorOrigin", ff.TB.Of(st.Val), core.Bind{})
-					}
-				}
-			}
-		}
-		r.R.Check(okAO, P+".request.recover.anchororigin.reader", "E5 provenance: a read-back recover takes its anchor origin from its own signed data", core.FuncName(f), r.where(f), "the anchor origin embedded in the request must be what is reported", "from ParseSignedDataForRecover(signedData)", "no such assignment")
-	}
+	r.checkReaderLayout(P, writerSeq)
 	// --- layout: proof / index writers
 	type listSpec struct{ fn, field, want string }
 	for _, ls := range []listSpec{
@@ -759,5 +614,156 @@ func (r *Run) checkAnchoredRequest(P string) {
 			}
 		}
 		r.R.Check(ok, P+".request.reader.update", "E5 provenance: the read-back update takes suffix/reveal value from the provisional index's update entry", core.FuncName(g), r.where(g), "-", "as prescribed", "literal not as prescribed")
+	}
+}
+
+// checkReaderLayout: the reader side of the layout agreement (shared by C13 and C20).
+func (r *Run) checkReaderLayout(P string, writerSeq []string) {
+	why := "if writer and reader disagree on the layout, deltas or signed data are attached to the wrong operation and the batch does not read back as written"
+	// --- layout: reader order
+	if f := r.fn(P, pkgProvider, "OperationProvider.assembleAnchoredOperations"); f != nil {
+		ff := r.E.Facts(f, core.Ctx{})
+		calls := r.callsIn(f, "createAnchoredOperations")
+		var full []string
+		var fullCalls []*ssa.Call
+		for _, c := range calls {
+			ops, cs := appendChain(c.Common().Args[0])
+			if len(ops) > len(full) {
+				full = nil
+				for _, o := range ops {
+					full = append(full, groupOf(ff.TB.Of(o)))
+				}
+				fullCalls = cs
+			}
+		}
+		want := []string{"Create", "Recover", "Update", "Deactivate"}
+		r.R.Check(fmt.Sprint(full) == fmt.Sprint(want), P+".layout.reader.order", "E12: read-back order is create, recover, update, deactivate", core.FuncName(f), r.where(f), why, fmt.Sprint(full), fmt.Sprintf("reader order %v, expected %v", full, want))
+		// positional delta assignment happens on the slice holding exactly the writer's groups
+		okPos := false
+		det := "no positional delta assignment found"
+		for _, b := range f.Blocks {
+			for _, ins := range b.Instrs {
+				st, ok := ins.(*ssa.Store)
+				if !ok {
+					continue
+				}
+				fa, ok := st.Addr.(*ssa.FieldAddr)
+				if !ok || fieldName(fa) != "Delta" {
+					continue
+				}
+				// base: load of IndexAddr(operationsK, i)
+				u, ok := fa.X.(*ssa.UnOp)
+				if !ok {
+					continue
+				}
+				ia, ok := u.X.(*ssa.IndexAddr)
+				if !ok {
+					continue
+				}
+				ops, _ := appendChain(ia.X)
+				var seq []string
+				for _, o := range ops {
+					seq = append(seq, groupOf(ff.TB.Of(o)))
+				}
+				det = fmt.Sprintf("deltas assigned positionally over %v; writer laid out %v", seq, writerSeq)
+				okPos = fmt.Sprint(seq) == fmt.Sprint(writerSeq) && len(seq) > 0
+				// the value assigned is Chunk.Deltas[i] with the same index
+				vt := ff.TB.Of(st.Val)
+				if !strings.Contains(vt.String(), ".Chunk.Deltas") {
+					okPos = false
+					det += "; assigned value is " + vt.String()
+				}
+			}
+		}
+		_ = fullCalls
+		r.R.Check(okPos, P+".layout.reader.deltas", "E12: deltas are assigned by position over exactly the groups, in the order, the writer laid them out", core.FuncName(f), r.where(f), why, det, det)
+		// proof lists feed like-named groups
+		n := 0
+		bad := []string{}
+		for _, b := range f.Blocks {
+			for _, ins := range b.Instrs {
+				st, ok := ins.(*ssa.Store)
+				if !ok {
+					continue
+				}
+				fa, ok := st.Addr.(*ssa.FieldAddr)
+				if !ok || fieldName(fa) != "SignedData" {
+					continue
+				}
+				n++
+				dst := groupOf(ff.TB.Of(fa.X))
+				srcT := ff.TB.Of(st.Val)
+				src := groupOf(srcT)
+				file := ""
+				switch {
+				case strings.Contains(srcT.String(), ".CoreProof."):
+					file = "core"
+				case strings.Contains(srcT.String(), ".ProvisionalProof."):
+					file = "provisional"
+				}
+				wantFile := map[string]string{"Recover": "core", "Deactivate": "core", "Update": "provisional"}[dst]
+				// same index on both sides
+				sameIdx := false
+				if u, ok := fa.X.(*ssa.UnOp); ok {
+					if ia, ok := u.X.(*ssa.IndexAddr); ok {
+						if su, ok := st.Val.(*ssa.UnOp); ok {
+							if sia, ok := su.X.(*ssa.IndexAddr); ok && sia.Index == ia.Index {
+								sameIdx = true
+							}
+						}
+					}
+				}
+				if dst == "" || dst != src || file != wantFile || !sameIdx {
+					bad = append(bad, fmt.Sprintf("%s[i].SignedData <- %s (file %s, same index %v)", dst, short(srcT.String(), 90), file, sameIdx))
+				}
+			}
+		}
+		// every hand-off to createAnchoredOperations of a group that needs signed data
+		// must have passed that group's signed-data loop
+		sdLoop := map[string]*ssa.BasicBlock{}
+		for _, b := range f.Blocks {
+			for _, ins := range b.Instrs {
+				if st, ok := ins.(*ssa.Store); ok {
+					if fa, ok := st.Addr.(*ssa.FieldAddr); ok && fieldName(fa) == "SignedData" {
+						if g := groupOf(ff.TB.Of(fa.X)); g != "" {
+							sdLoop[g] = enclosingLoopHead(f, b)
+						}
+					}
+				}
+			}
+		}
+		for ci, c := range calls {
+			ops, _ := appendChain(c.Common().Args[0])
+			if len(ops) == 0 {
+				ops = []ssa.Value{c.Common().Args[0]}
+			}
+			for _, o := range ops {
+				g := groupOf(ff.TB.Of(o))
+				if g == "" || g == "Create" {
+					continue
+				}
+				h := sdLoop[g]
+				okDom := h != nil && !blockReaches(ff, f.Blocks[0], c.Block(), h)
+				if h != nil && f.Blocks[0] == h {
+					okDom = true
+				}
+				r.R.Check(okDom, fmt.Sprintf("%s.layout.reader.proofs.before.%s.handoff%d", P, g, ci), "E8 never-before: "+g+" operations are handed to createAnchoredOperations only after the loop that attaches their signed data",
+					core.FuncName(f), r.P.Pos(c.Pos()), "an operation read back without its signed data is not the request that was submitted (and can never be applied)",
+					"signed-data loop passed on every path", "a path reaches this hand-off without passing the "+g+" signed-data loop")
+			}
+		}
+		r.R.Check(n == 3 && len(bad) == 0, P+".layout.reader.proofs", "E12: signed data of group G[i] comes from the like-named list of the right proof file at the same index (recover/deactivate: core proof, update: provisional proof)", core.FuncName(f), r.where(f), why, fmt.Sprintf("%d signed-data assignments consistent", n), fmt.Sprintf("%d assignments; inconsistent: %s", n, strings.Join(bad, "; ")))
+		// recover anchor origin from its signed data
+		okAO := false
+		for _, b := range f.Blocks {
+			for _, ins := range b.Instrs {
+				if st, ok := ins.(*ssa.Store); ok {
+					if fa, ok := st.Addr.(*ssa.FieldAddr); ok && fieldName(fa) == "AnchorOrigin" && groupOf(ff.TB.Of(fa.X)) == "Recover" {
+						okAO = core.MatchTerm("ParseSignedDataForRecover(_, _).AnchorOrigin", ff.TB.Of(st.Val), core.Bind{})
+					}
+				}
+			}
+		}
+		r.R.Check(okAO, P+".request.recover.anchororigin.reader", "E5 provenance: a read-back recover takes its anchor origin from its own signed data", core.FuncName(f), r.where(f), "the anchor origin embedded in the request must be what is reported", "from ParseSignedDataForRecover(signedData)", "no such assignment")
 	}
 }
